@@ -287,9 +287,23 @@ def r3_deposits(ctx):
         alts = list(tqe[1]) if tqe[0] == "phi" else [tqe]
         tq = sig(q.novers(tqe))
         r.check(all(q.is_call(mir.strip(a), "PoolState::deposit") for a in alts), "rewrite/total_liqs", "total_liqs = result of PoolState::deposit (every branch)", "total_liqs = %s" % tq[:260])
-        tm = sig(q.novers(caps.get("_ref__total_mtsqrt", ("unknown", ""))))
-        TL, TR = sig(q.novers(tl[0][1])), sig(q.novers(tr[0][1]))
-        r.check(tm == "core::num::<impl u128>::saturating_mul(%s(%s), %s(%s))" % (SQ, TL, SQ, TR), "rewrite/total_mtsqrt", "total_mtsqrt = √total_lefts·√total_rights", "total_mtsqrt = %s" % tm[:200])
+        # "pro rata": the shares Σ floor(total_liqs·wᵢ/W) add up to at most total_liqs only if W = Σ wᵢ — the denominator must be the sum, over the same
+        # batch, of the very expression used as the numerator (a denominator computed another way, e.g. √Σl·√Σr, can be smaller than Σ √lᵢ·√rᵢ)
+        tme = mir.strip(caps.get("_ref__total_mtsqrt", ("unknown", "")))
+        okd, why = False, "denominator = %s" % sig(q.novers(tme))[:160]
+        if q.is_call(tme, "fold") and q.is_call(tme[2][0], "Iterator::map") and sig(tme[2][0][2][0]) == "$3" and q.const_val(tme[2][1]) == 0 and tme[2][0][2][1][0] == "closure":
+            mc = ctx.prog.body(tme[2][0][2][1][1])
+            rr = q.ret_assignments(mc)
+            fc = ctx.prog.body(tme[2][2][1]) if tme[2][2][0] == "closure" else None
+            fr = q.ret_assignments(fc) if fc is not None else []
+            addok = len(fr) == 1 and q.arith_nf(fr[0][2]) in (q.B("Add", ("param", 2, "a"), ("param", 3, "b")), q.B("Add", ("param", 3, "b"), ("param", 2, "a"))) or \
+                (len(fr) == 1 and sig(q.arith_nf(fr[0][2])) in ("Add($2, $3)", "Add($3, $2)"))
+            if len(rr) == 1 and sig(q.novers(rr[0][2])) == my and addok:
+                okd = True
+            else:
+                why = "denominator sums %s with %s, the numerator is %s" % (sig(rr[0][2])[:120] if rr else "?", sig(fr[0][2])[:60] if fr else "?", my[:120])
+        r.check(okd, "rewrite/denominator", "the pro-rata denominator is Σ over the batch of the numerator expression √(lᵢ)·√(rᵢ)",
+                "the pro-rata denominator is not the sum of the numerators over the batch (%s): the shares can add up to more than total_liqs, i.e. more liquidity tokens than the pool records" % why)
     else:
         r.violation("rewrite/value", "%d value writes" % len(vals))
     # coins: insert output 0 (id before mutation), remove output 1; legacy rule confined
@@ -374,6 +388,20 @@ def r5_only_selected(ctx):
         r.check(k in ("Transaction::output_coinid($2, 0)", "Transaction::output_coinid($2, 1)"), "key@%s/%s" % (b.nname.replace(MM, "").replace("{closure#", "c").replace("}", ""), k[-3:-1]),
                 "keyed by %s of the closure's element" % k, "a coin keyed by %s is written during pool processing" % k, b.where(bi))
     r.floor("coin writes in pool processing", n, 6)
+    # every selected request is settled: the per-request closures of the three workers rewrite output 0 on every path (a request that is counted in the
+    # totals — and so moves the reserves / burns or mints liquidity — but keeps its original coin leaves value or liquidity tokens unaccounted for)
+    for wname in ("process_swaps_for_single_pool", "process_deposits_for_single_pool", "process_withdrawals_for_single_pool"):
+        wb = prog.body(MM + wname)
+        if wb is None:
+            continue
+        for c in prog.closures_of(wb):
+            ins0 = [bi for bi, e in q.call_exprs(c, "CoinMapping::insert_coin") if sig(e[2][1]) == "Transaction::output_coinid($2, 0)"]
+            if not ins0:
+                continue
+            wo = c.reachable(0, removed=ins0)
+            r.check(not any(x in wo for x in c.return_blocks()), "settled@%s" % wname.replace("process_", "").replace("_for_single_pool", ""),
+                    "every request of the batch has its output 0 rewritten", "a request counted in the batch totals can leave the per-request step without its output 0 being rewritten "
+                    "(its share of the reserves / its liquidity tokens stay unaccounted for)", c.where(ins0[0]))
     # the lists: process_X closures pass transactions_for_pool(selected, pool)
     for name, sel, worker in (("process_swaps", "get_swap_transactions", "process_swaps_for_single_pool"), ("process_deposits", "get_deposit_transactions", "process_deposits_for_single_pool"),
                               ("process_withdrawals", "get_withdrawal_transactions", "process_withdrawals_for_single_pool")):
